@@ -68,6 +68,9 @@ Pool == << [kind |-> "ok",        tg |-> Tagged(Simple)],
            [kind |-> "malformed", tg |-> SetRow(Tagged(Simple), 2, PNone)],
            \* a row that is a truthy object without a length
            [kind |-> "malformed", tg |-> SetRow(Tagged(Simple), 1, PInt(2))],
+           \* several final states, only one of them out of range (either position)
+           [kind |-> "malformed", tg |-> [Tagged(Simple) EXCEPT !.final_states = PList(<<PInt(2), PInt(7)>>)]],
+           [kind |-> "malformed", tg |-> [Tagged(DeadHeavy) EXCEPT !.final_states = PList(<<PInt(-1), PInt(4)>>)]],
            \* successor index exactly n (one past the last state) on a state that is swept
            [kind |-> "malformed", tg |-> SetSlot(Tagged(Simple), 1, 1, 2, PInt(3))] >>
 
